@@ -317,6 +317,8 @@ def _hidden_comp(p):
 
 def _fs_extra_only_hidden(v):
     obs = v['observed']
+    if v['kind'] == 'globmatch-vs-reference':
+        obs = {'missing': obs.get('wrongly_rejected'), 'extra': obs.get('wrongly_accepted')}
     if obs.get('missing'):
         return False
     ex = obs.get('extra') or []
@@ -327,7 +329,7 @@ def _fs_extra_only_hidden(v):
 def _nullstart_fs(v, params):
     """NULLSTART seen through glob(): extra results, all with a hidden / special component, from a pattern in which a
     wildcard stands behind constructs that matched the empty string."""
-    if v['kind'] not in ('glob-vs-reference', 'glob-vs-bash', 'pathlib-vs-reference'):
+    if v['kind'] not in ('glob-vs-reference', 'glob-vs-bash', 'pathlib-vs-reference', 'globmatch-vs-reference'):
         return False
     if not _fs_extra_only_hidden(v):
         return False
@@ -360,13 +362,16 @@ def _ambig(v, params):
     """AMBIG: REALPATH matching inspects only the first way the regex matched; when a path can be split between `**`
     and explicit segments in several ways and the first one puts a directory symlink under `**`, globmatch rejects a
     path that glob returns through another split."""
-    if v['kind'] != 'glob-vs-globmatch':
+    if v['kind'] not in ('glob-vs-globmatch', 'globmatch-vs-reference'):
         return False
     obs = v['observed']
+    if v['kind'] == 'globmatch-vs-reference':
+        obs = {'only_glob': obs.get('wrongly_rejected'), 'only_globmatch': obs.get('wrongly_accepted')}
     if obs.get('only_globmatch') or not obs.get('only_glob'):
         return False
     inp = v['input']
-    pats = inp['patterns'] if isinstance(inp['patterns'], list) else [inp['patterns']]
+    pats = inp.get('patterns', inp.get('pattern'))
+    pats = pats if isinstance(pats, list) else [pats]
     if not any('**' in p and '/' in p.replace('**', '', 1).strip('/') or p.count('**') > 1 for p in pats):
         return False
     from . import fsx
